@@ -48,6 +48,8 @@ ASSUMPTIONS = [
     "main stream: no package on a file's `within` path has content of its own besides classes; the stream 'payload' holds the "
     "splits where one has (input class of finding C27-F1, fixed by 07f5409): all orders are required to agree there too, the "
     "orders in which a `within` file precedes the package's own file are counted as `order:shadowed`",
+    "every class is flattened on its own fresh copy of the merged tree (flattening writes into the library tree, so results on a "
+    "shared tree depend on what was flattened before: C05/C26 territory)",
     "open finding C27-F2: flattening a class that *contains* nested classes visits them in dictionary order and is not "
     "independent of that order when one of them fails to flatten on its own (C07's inherited-component-type lookup); the "
     "merged trees are equal up to sibling order there, the flat model of the enclosing package is not",
@@ -132,6 +134,16 @@ def loosen(s):
     return json.dumps(j, sort_keys=True, default=str)
 
 
+def flat_each(tree_, classes):
+    """Flat model of every class, each on its own fresh copy of the tree: flattening writes into the library tree
+    (e.g. the unqualified-import lookup stores what it found in `imports`), so that flattening one class after another
+    on one tree would make a class's result depend on which classes were flattened before it — a history effect that
+    belongs to C05 / C26, not to the order in which the files were merged."""
+    import pickle
+    blob = pickle.dumps(tree_)
+    return {c: flat(pickle.loads(blob), c) for c in classes}
+
+
 class Flats:
     """Flat models of all classes of a tree, memoised on the exact (ordered, digested) forest."""
 
@@ -141,7 +153,7 @@ class Flats:
     def of(self, tree_, forest):
         key = json.dumps(forest)
         if key not in self.memo:
-            strict = {c: flat(tree_, c) for c in self.classes}
+            strict = flat_each(tree_, self.classes)
             self.memo[key] = (strict, {c: loosen(v) for c, v in strict.items()})
         return self.memo[key]
 
@@ -252,7 +264,7 @@ def check_library(ctx, case, drv, walks=True):
     nf = len(files)
     U = parse_text(case["unsplit"])
     refmap = content_map(U)
-    ref = {c: loosen(flat(U, c)) for c in classes}
+    ref = {c: loosen(v) for c, v in flat_each(U, classes).items()}
     ctx.count("ref-flatten-raises", sum(1 for v in ref.values() if v.startswith("raised:")))
     flats = Flats(classes)
     # ---- per file: file_to_tree
